@@ -78,6 +78,8 @@ pub enum RK {
     Join { a: Src, b: Src },
     Select { a: Src, b: Src },
     Burst { m: S, a: Src },
+    SelfAbort { a: Src, m: S, handle: u16 },
+    HandOff { a: Src, b: Src, c: S },
     SpawnAfter { a: Src, m: S },
     /// spawned by SpawnAfter: notifies the shell with `arg`
     NotifyArg { m: S, arg: u32 },
@@ -199,6 +201,11 @@ impl RCmd {
                 c
             }
             P::Manual(q) => RCmd::build(q),
+            P::SelfAbort(s, _) => {
+                let mut c = single(task(RK::Fresh(p.clone())));
+                c.abort_ids.push(2000 + s.id);
+                c
+            }
             // realised through the legacy API: same outputs; hosted like a sibling
             P::Legacy(q) => single(host(RCmd::build(q), vec![], 0, 0)),
             P::Then(a, b) => single(host(RCmd::build(a), vec![RCmd::build(b)], 0, 0)),
@@ -479,6 +486,17 @@ impl RCmd {
                     cx.eff(&mut a, Kind::Once, 0);
                     t.kind = RK::SpawnAfter { a, m };
                 }
+                P::SelfAbort(s, m) => {
+                    let mut a = Src::new(s);
+                    cx.eff(&mut a, Kind::Once, 0);
+                    t.kind = RK::SelfAbort { a, m, handle: 2000 + s.id };
+                }
+                P::HandOff(s, u, c) => {
+                    let (mut a, mut b) = (Src::new(s), Src::new(u));
+                    cx.eff(&mut a, Kind::Once, 0);
+                    cx.eff(&mut b, Kind::Once, 0);
+                    t.kind = RK::HandOff { a, b, c };
+                }
                 P::Burst(m, s) => {
                     cx.mark(m, 0);
                     cx.mark(m, 1);
@@ -683,6 +701,37 @@ impl RCmd {
                 cx.eff(&mut src, Kind::Never, *arg);
                 Run::Finished
             }
+            RK::SelfAbort { a, m, handle } => match a.st {
+                St::V(v) => {
+                    cx.got(a.site, v);
+                    // aborts the command it runs in; what it emits in this poll is still delivered
+                    cx.aborts.push(*handle);
+                    cx.mark(*m, 0);
+                    Run::Finished
+                }
+                St::G => Run::Finished,
+                _ => Run::Pending,
+            },
+            RK::HandOff { a, b, c } => {
+                let winner_is_a = matches!(a.st, St::V(_));
+                let winner_is_b = !winner_is_a && matches!(b.st, St::V(_));
+                if winner_is_a || winner_is_b {
+                    let (w, l) = if winner_is_a { (a.clone(), b.clone()) } else { (b.clone(), a.clone()) };
+                    if let St::V(v) = w.st {
+                        cx.got(w.site, v);
+                    }
+                    // the loser's future (with its request, answered or not) moves to a new task
+                    self.spawnq.push(task(RK::ChildReq { a: l }));
+                    let mut cs = Src::new(*c);
+                    cx.eff(&mut cs, Kind::Once, 0);
+                    t.kind = RK::Req { a: cs, map: false };
+                    return Run::Pending;
+                }
+                if !a.pending() && !b.pending() {
+                    return Run::Finished;
+                }
+                Run::Pending
+            }
             RK::Burst { m, a } => match a.st {
                 St::V(v) => {
                     cx.mark(*m, 2);
@@ -811,10 +860,10 @@ impl RK {
     fn srcs_mut(&mut self) -> Vec<&mut Src> {
         match self {
             RK::Req { a, .. } | RK::Stream { a, .. } | RK::ChildReq { a } | RK::StreamChild { a }
-            | RK::Burst { a, .. } | RK::SpawnAfter { a, .. } | RK::Producer { a, .. } | RK::SibAborter { a, .. } => vec![a],
+            | RK::Burst { a, .. } | RK::SpawnAfter { a, .. } | RK::Producer { a, .. } | RK::SibAborter { a, .. } | RK::SelfAbort { a, .. } => vec![a],
             RK::Aborter { b, .. } | RK::AwaitJoinReq { b, .. } => vec![b],
             RK::ReqReq { a, b } | RK::ReqStream { a, b, .. } | RK::StreamReq { a, b, .. } | RK::Join { a, b }
-            | RK::Select { a, b } => vec![a, b],
+            | RK::Select { a, b } | RK::HandOff { a, b, .. } => vec![a, b],
             RK::StreamStream { a, bs, .. } => {
                 let mut v = vec![a];
                 v.extend(bs.iter_mut());
@@ -827,10 +876,10 @@ impl RK {
     fn srcs(&self) -> Vec<&Src> {
         match self {
             RK::Req { a, .. } | RK::Stream { a, .. } | RK::ChildReq { a } | RK::StreamChild { a }
-            | RK::Burst { a, .. } | RK::SpawnAfter { a, .. } | RK::Producer { a, .. } | RK::SibAborter { a, .. } => vec![a],
+            | RK::Burst { a, .. } | RK::SpawnAfter { a, .. } | RK::Producer { a, .. } | RK::SibAborter { a, .. } | RK::SelfAbort { a, .. } => vec![a],
             RK::Aborter { b, .. } | RK::AwaitJoinReq { b, .. } => vec![b],
             RK::ReqReq { a, b } | RK::ReqStream { a, b, .. } | RK::StreamReq { a, b, .. } | RK::Join { a, b }
-            | RK::Select { a, b } => vec![a, b],
+            | RK::Select { a, b } | RK::HandOff { a, b, .. } => vec![a, b],
             RK::StreamStream { a, bs, .. } => {
                 let mut v = vec![a];
                 v.extend(bs.iter());
@@ -1012,7 +1061,7 @@ impl RState {
                 items.push((ri, p));
             }
         }
-        items.truncate(3);
+        items.truncate(5);
         let mut out = vec![];
         for mask in 0..(1u32 << items.len()) {
             let mut s = self.clone();
